@@ -67,7 +67,11 @@ func main() {
 	thorough := hx.Tier() == "thorough"
 	jobs := make(chan job, 4096)
 	var wg sync.WaitGroup
-	for w := 0; w < runtime.NumCPU(); w++ {
+	workers := runtime.NumCPU()
+	if workers > 8 {
+		workers = 8 // the machine is shared with other checks
+	}
+	for w := 0; w < workers; w++ {
 		wg.Add(1)
 		go func() {
 			defer wg.Done()
